@@ -182,6 +182,17 @@ pub fn gen_world(seed: u64, idx: u64, s: &dyn SuiteOps, mode: usize) -> World {
             }
             b.push(Op::ServerFinish { st: Ref::mem(*sst), fin: Ref::lit(Kind::CredFin, x) });
         }
+        if mode == 0 {
+            // finalizations computable without any secret: MACs and hashes over constants
+            let h = crate::spec::oprf_hash(s.oprf());
+            let consts: [Vec<u8>; 3] = [vec![0u8; nh], vec![0xFFu8; nh], vec![]];
+            for k in &consts {
+                for m in &consts {
+                    b.push(Op::ServerFinish { st: Ref::mem(*sst), fin: Ref::lit(Kind::CredFin, h.hmac(k, &[m])) });
+                }
+                b.push(Op::ServerFinish { st: Ref::mem(*sst), fin: Ref::lit(Kind::CredFin, h.hash(&[k])) });
+            }
+        }
         // the genuine one, once more, after all the forgeries (through bytes)
         if let Some(f) = genuine {
             b.push(Op::ServerFinish { st: Ref::via(*sst, crate::suite::Codec::Native), fin: Ref::via(*f, crate::suite::Codec::Native) });
@@ -192,7 +203,7 @@ pub fn gen_world(seed: u64, idx: u64, s: &dyn SuiteOps, mode: usize) -> World {
 
 pub fn run(ctx: &Ctx) -> Report {
     let mut rep = Report::new(
-        "per world: 6 pending server states (two sessions of u1, u2, wrong-password, fake record, abandoned) x candidate finalizations: every finalization of the world (cross-session/user), all 8*Nh single-bit flips, all 255*Nh single-byte substitutions (modes 1..Nh/8, 8 offsets each), all-zero, all-0xFF, 64 random, wrong lengths, 64 XOR-cancelling byte pairs, all adjacent transpositions, rotations, reversal; the genuine one must succeed with the client's key. The substitution family is enumerated completely per state; states/worlds are seeded samples. non-trivial = contains a predicted rejection",
+        "per world: 6 pending server states (two sessions of u1, u2, wrong-password, fake record, abandoned) x candidate finalizations: every finalization of the world (cross-session/user), all 8*Nh single-bit flips, all 255*Nh single-byte substitutions (modes 1..Nh/8, 8 offsets each), all-zero, all-0xFF, 64 random, wrong lengths, 12 secret-free constant MACs/hashes, 64 XOR-cancelling byte pairs, all adjacent transpositions, rotations, reversal; the genuine one must succeed with the client's key. The substitution family is enumerated completely per state; states/worlds are seeded samples. non-trivial = contains a predicted rejection",
     );
     rep.exhaustive = Some(true);
     let mut suites: Vec<&'static dyn SuiteOps> = SIM_SUITES.to_vec();
